@@ -56,9 +56,14 @@ def main():
             pass
         except Exception as e:
             tb = traceback.extract_tb(e.__traceback__)
-            inner = os.path.realpath(tb[-1].filename) if tb else ''
+            files = [os.path.realpath(f.filename) for f in tb]
             text = ''.join(traceback.format_exception(type(e), e, e.__traceback__))[-3000:]
-            if inner.startswith(repo_src) or getattr(e, '_zmon_from_repo', False):
+            # raised by the code under test: some frame of the library lies *below* the last harness frame (the
+            # innermost frame itself may be in the standard library, e.g. a weak dictionary the library indexes)
+            verif_dir = os.path.dirname(os.path.dirname(os.path.abspath(__file__)))
+            last_harness = max([i for i, f in enumerate(files) if f.startswith(verif_dir)] or [-1])
+            from_repo = any(f.startswith(repo_src) for f in files[last_harness + 1:])
+            if from_repo or getattr(e, '_zmon_from_repo', False):
                 # an exception the engine did not anticipate, raised by the code under test
                 try:
                     ctx.violation('unexpected-exception', {'type': type(e).__name__, 'tb': text})
